@@ -218,11 +218,11 @@ pub async fn query_streams(rng: &mut Rng, out: &mut Out, stats: &mut serde_json:
         (vec![top(None, 0, None, vec![named("name")]), top(None, 0, None, vec![named("name")])], "entity selected twice without alias"),
     ];
     let mut inst = Inst::start(&dm.text()).await;
-    inst.app.mutate(r#"mutate { d.Person { name: "probe" pets: [{name:"kiki"}] order: {name:"o"} jn: "{\"a\":1}" } }"#, None).await.unwrap();
+    setup_mutate(&inst.app, r#"mutate { d.Person { name: "probe" pets: [{name:"kiki"}] order: {name:"o"} jn: "{\"a\":1}" } }"#, None).await;
     for (qs, what) in &directed {
         if !inst.healthy { inst.close(); inst = Inst::start(&dm.text()).await; }
         let text = query_text(qs);
-        let o = call(inst.app.query(&text, None)).await;
+        let o = call_t(|| inst.app.query(&text, None)).await;
         let p = inst.probe(false).await as i64;
         verdicts[o as usize] += 1;
         if o >= 2 || p == 0 { inst.healthy = false; }
@@ -239,7 +239,7 @@ pub async fn query_streams(rng: &mut Rng, out: &mut Out, stats: &mut serde_json:
         for pos in 0..2 {
             let qs = if pos == 0 { vec![top(Some(&kw), 0, None, vec![named("name")])] } else { vec![top(None, 0, None, vec![named("name"), RField::Sub(Some(kw.clone()), s("pets"), vec![named("name")])])] };
             let text = query_text(&qs);
-            let o = call(inst.app.query(&text, None)).await;
+            let o = call_t(|| inst.app.query(&text, None)).await;
             let p = inst.probe(false).await as i64;
             verdicts[o as usize] += 1;
             out.push(Case { kind: "query-keyword".into(), coq: format!("CQuery {} {}", dm.coq(), glist(&qs.iter().map(|q| q.coq()).collect::<Vec<_>>())), obs: vec![o, p], meta: json!({"keyword": kw, "position": pos, "text": text}) });
@@ -278,7 +278,7 @@ pub async fn query_streams(rng: &mut Rng, out: &mut Out, stats: &mut serde_json:
             if !inst.healthy { inst.close(); inst = Inst::start(&gdm.text()).await; }
             let qs = gen_query(rng, &gdm, odd / 2, 25, 6);
             let text = query_text(&qs);
-            let o = call(inst.app.query(&text, None)).await;
+            let o = call_t(|| inst.app.query(&text, None)).await;
             let p = inst.probe(false).await as i64;
             verdicts[o as usize] += 1;
             fn d(f: &RField) -> usize { match f { RField::Sub(_, _, s) => 1 + s.iter().map(d).max().unwrap_or(0), _ => 0 } }
